@@ -971,6 +971,8 @@ def rule_fromclause(P) -> RuleResult:
                     def on_call(fname, fval, recv, args, kwargs, ex, node):
                         last = str(fname).split('.')[-1]
                         if last == '_compile':
+                            if args and args[0] == EXPR_AST:
+                                ex.events.append(('x-condition-compiled', ex.heap.get(_attr(SELF, 'table'))))
                             return None if args and args[0] is None else CEXPR
                         if last == 'is_aggregate':
                             return expr == 'aggregate'
@@ -1009,6 +1011,11 @@ def rule_fromclause(P) -> RuleResult:
                             res.fail(construct, 'fromclause:update', f'{label}: the table must be replaced by table.update(open=, close=, clear=) '
                                      f'with the values of the clause, absent clauses included (a nested SELECT is compiled on the table of the '
                                      f'enclosing one and must not inherit its clauses); got `{show(got)[:120]}`', loc(fi))
+                        late = [e for e in p.events if e[0] == 'x-condition-compiled' and e[1] is not None]
+                        if late:
+                            res.fail(construct, 'fromclause:order', f'{label}: the FROM condition is compiled after the table has been replaced by the '
+                                     f'qualified one: a sub-select inside the condition (which inherits the current table) then ranges over the '
+                                     f'period report instead of the ledger, so OPEN / CLOSE / CLEAR no longer apply independently of the filter', loc(fi))
                         want_ret = None if expr == 'absent' else CEXPR
                         if p.value != want_ret:
                             res.fail(construct, 'fromclause:condition', f'{label}: the compiled FROM condition must be returned; got `{show(p.value)}`', loc(fi))
